@@ -282,6 +282,7 @@ Proof.
     + exfalso. exact (plain_prologue u path tbl TVolume _ e0 t0 Ep).
 Qed.
 End MoreEffects.
+#[export] Hint Resolve plain_image_body plain_network_body plain_volume_body plain_image_resource plain_network_name plain_volume_name : plain.
 
 (* ---- the container converter's effect on the table ---- *)
 Lemma bind_errS_elim {E A B} (m : res E A) (f : A -> res E B) e t (P : Prop) :
